@@ -12,6 +12,13 @@ COMMON_NOTE = (
 )
 
 CHECKS = {
+    "C01": dict(
+        technique="bounded-exhaustive enumeration of request lines x handler lists x working directories, two-world non-interference differential + audit-event monitor on the implementation",
+        text="Every request of the bounded alphabet (13 protocol wrappers x 4 percent-encoding layers x paths of <=3 segments over traversal tokens, ZIP/virtual suffixes, NUL, backslashes) is served by the real server "
+             "under the shipped and the full handler list and three working directories, twice, with two different states of everything outside the root (including siblings whose names start like the root); "
+             "responses must be byte-identical, no open/listdir/exec may reach an object outside the root, planted canary bytes must never appear, and climbing selectors must be answered not-found.",
+        design_ref="DESIGN.md 3/C01",
+    ),
     "C02": dict(
         technique="bounded-exhaustive enumeration of first lines x TLS x header blocks x protocol orders through the real multiplexer, against a reference classifier; exhaustive 256-byte sniff on a live socketpair",
         text="Every first line of the bounded field alphabet (1-4 fields, four separators, three terminators, near misses of every documented shape), on TLS and plaintext connections, "
